@@ -427,6 +427,58 @@ def ob_assignment_value_first(run, mir, rp, fam):
     run.samples.append({"obligation": ob.id, "ok_paths": n_ok})
 
 
+def ob_lambda_body(run, mir, rp, fam):
+    ob = run.ob("lambda-body-in-use-mode", "E2", "gen_expr, the AnonFun arm: the body of an anonymous function is generated in the environment its parameters "
+                "were added to, with definition mode as it was outside (off in an expression) - so an identifier in the body is looked up, and an unknown one "
+                "is an error instead of being taken for a new definition", ["gen_expr (AnonFun)", "Environment setters (inlined)"])
+    fn = e2.find1(mir, file=ckern.GEN + "expression.rs", name="gen_expr")
+    ex = Exec(mir, max_paths=20000, inline=[ckern.ENV_SETTERS])
+    st = State()
+    body, _ = ckern.mk_ast("body", opq("body.node", "Node"))
+    bodyr = Ref(ex.new_cell(st, body))
+    ast, _ = ckern.mk_ast("ast", ckern.mk_node("AnonFun", {"args": opq("args", "Vec<AST>"), "body": bodyr}))
+    env, ev = ckern.sym_env(ex, st)
+    ctx, constr = ckern.refs(ex, st, "ctx", "constr")
+    ends = e2.run_kernel(run, ex, fn, [Ref(ex.new_cell(st, ast)), env, ctx, constr], st)
+    fields = e2.rust_struct(ckern.ENV_RS, "Environment")
+    claims, n_ok = [], 0
+    for p in ends:
+        if result_kind(p) != "Ok":
+            continue
+        n_ok += 1
+        s = p.state
+        gens = [g for g in calls(p, "generate") if z3.eq(g["argvals"][0], ex.to_val(s, bodyr))]
+        ca = calls(p, "constrain_args")
+        if len(gens) != 1 or len(ca) != 1:
+            claims.append(z3.Not(conj(p.cond)))
+            continue
+        benv = gens[0]["args"][1]
+        benv = ex.read_ref(s, benv) if isinstance(benv, Ref) else benv
+        ok = z3.BoolVal(False)
+        if isinstance(benv, Agg) and benv.names == fields:
+            dm = benv.fields[fields.index("is_def_mode")]
+            if z3.is_bool(dm):
+                ok = dm == ev["is_def_mode"]
+        claims.append(z3.Implies(conj(p.cond), ok))
+    if not n_ok:
+        raise Unsupported("no Ok path in the AnonFun arm")
+    f = e2.Family(rp)
+    f.add("lambda-undefined-name-in-body", "def g := \\x: Int => x + zz\n", "reject")
+    f.add("lambda-later-name-in-body", "def g := \\x: Int => x + later\ndef later := 1\n", "reject")
+    f.add("lambda-undefined-name-in-argument-position", "def h(f: Int -> Int) -> Int => f(1)\nprint(h(\\x: Int => x + zz))\n", "reject")
+    f.add("lambda-parameter-in-body", "def g := \\x: Int => x + 1\n", "accept")
+    f.add("lambda-outer-name-in-body", "def k := 2\ndef g := \\x: Int => x + k\n", "accept")
+    f.add("lambda-parameter-not-outside", "def g := \\x: Int => x + 1\nprint(x)\n", "reject")
+    e2.prove(run, ob, ex, [], conj(claims), {"definition mode outside": ev["is_def_mode"]}, f.as_replay("lambda-body:"))
+    if ob.status == "discharged":
+        k, bad = f.run()
+        run.validated += k
+        if bad:
+            ob.status = "pending"
+            ob.inconclusive(f"lambda family disagrees although the kernel is as specified: {bad[:2]}")
+    run.samples.append({"obligation": ob.id, "ok_paths": n_ok})
+
+
 COL_RS = ckern.GEN + "collection.rs"
 
 
@@ -747,7 +799,7 @@ def run(run):
                "outside: forward references between top-level definitions, comprehension variables, class scopes, match arms (constrain_cases loop)")
     run.trusted += ["rustc nightly MIR dump", "mirsym MIR semantics", "z3"]
     run.bounds = {"paths": "all paths, loops cut at headers"}
-    for f in (ob_lookup, ob_sequencing, ob_flow, ob_comprehension, ob_env_ops, ob_env_setters, ob_class_field_scope, ob_self_field, ob_assigned_detection, ob_assignment_value_first):
+    for f in (ob_lookup, ob_sequencing, ob_flow, ob_comprehension, ob_env_ops, ob_env_setters, ob_class_field_scope, ob_self_field, ob_assigned_detection, ob_assignment_value_first, ob_lambda_body):
         try:
             f(run, mir, rp, fam)
         except Unsupported as e:
